@@ -6,11 +6,11 @@ from .. import inputs
 from . import geom
 
 SPEC = dict(
-    technique='Lean 4 proof (q2r homomorphism, double cover, embeddings, class delegation; regenerated model) + float monitor of the converse maps',
+    technique='Lean 4 proof (q2r homomorphism, double cover, r2q∘q2r = ±id on all 40 branches, embeddings, class delegation; regenerated model) + float monitor of the converse maps',
     lean_modules=['SmVerif.Props.C04', 'SmVerif.Props.Delegation', 'SmVerif.Props.UQOps'],
     groups=['Quaternions', 'Quats', 'Poses'],
     expected_untranslatable=('UQ_interp', 'UQ_interp_shortest'),
-    partial=['r2q branches are proved per branch under the branch condition; twist and dual-quaternion routes are explored'],
+    partial=['r2q is proved to invert q2r up to the overall sign for exact unit quaternions (every branch); r2q on rounded matrices, twist and dual-quaternion routes are explored'],
     assumptions=['agreement is compared at 1e-6 on generated inputs only'],
 )
 
@@ -132,6 +132,12 @@ def _impl(tier, seed, search):
         ok, r = L.noraise('EulerVec', lambda: (SO3.EulerVec(w).A, SE3.EulerVec(w).A[:3, :3], UnitQuaternion.EulerVec(w).R, SO3.Exp(w).A), dict(w=w), 'EulerVec / Exp constructors')
         if ok:
             L.close('EulerVec:SE3', r[1], r[0], TOL, 1.0, dict(w=w)); L.close('EulerVec:UQ', r[2], r[0], TOL, 1.0, dict(w=w)); L.close('EulerVec:Exp', r[3], r[0], TOL, 1.0, dict(w=w))
+        # the same constructors on the zero rotation vector and on magnitudes around the library's zero thresholds (10 and 100 eps)
+        wz = ax * (0.0, 1e-17, 1e-15, 3e-15, 1e-14, 5e-14, 1e-12)[i % 7]
+        for nm_, f_ in (('SO3.EulerVec', lambda: SO3.EulerVec(wz).A), ('SE3.EulerVec', lambda: SE3.EulerVec(wz).A[:3, :3]), ('UQ.EulerVec', lambda: UnitQuaternion.EulerVec(wz).R),
+                        ('SO3.Exp', lambda: SO3.Exp(wz).A)):
+            ok, r = L.noraise(f'{nm_}(tiny)', f_, dict(w=wz), f'{nm_} on a rotation vector of magnitude {float(np.linalg.norm(wz)):.1g}', sig=f'EulerVec:tiny:{nm_}:raises')
+            if ok: L.close(f'{nm_}(tiny)', r, np.eye(3), TOL, 1.0, dict(w=wz), sig=f'EulerVec:tiny:{nm_}')
         oa = geom.axis_scaled(g); aa = np.cross(oa, inputs.unit_axis(g))
         if np.linalg.norm(aa) > 1e-3 * np.linalg.norm(oa):
             ok, r = L.noraise('OA', lambda: (SO3.OA(oa, aa).A, SE3.OA(oa, aa).A[:3, :3], UnitQuaternion.OA(oa, aa).R), dict(o=oa, a=aa), 'OA constructors')
